@@ -54,7 +54,7 @@ def h_adm(profile, t):
 
 
 def layout_points(eps):
-    return [1 / 4, 3 / 8, 1 / 2, 1 / 2 + eps / 2, 1 / 2 + 2 * eps, 3 / 4]
+    return [1 / 4, 3 / 8, 1 / 2, 1 / 2 + eps / 2, 1 / 2 + 2 * eps, 3 / 4 - eps / 2, 3 / 4]
 
 
 def layouts(eps, max_size):
@@ -91,7 +91,7 @@ def enumerate_cases(tier, seed):
     ctrl_names = ["I_default", "I_dyadic_a", "PI_default", "S_grow"] if quick else list(CONTROLLERS)
     eps_names = ["eps_dyadic"] if quick else list(EPSS)
     max_pieces = 2 if quick else 3
-    max_layout = 2 if quick else 6
+    max_layout = 2 if quick else 7
     # ---- profile mode: one case = (entry, controller, eps, clip, dt0, layout); all profiles inside
     for cn in ctrl_names:
         for en in eps_names:
@@ -113,7 +113,7 @@ def enumerate_cases(tier, seed):
     # ---- answers mode: one case = one configuration, DFS inside
     bound = 2 if quick else 3
     a_ctrl = ["I_default", "PI_default", "S_grow"] if quick else ["I_default", "I_dyadic_a", "PI_default", "PI_narrow", "S_grow", "S_shrinkgrow"]
-    a_lay = [[0, 2, 3, 5]] if quick else [[0, 2, 3, 5], [2, 4], []]
+    a_lay = [[0, 2, 3, 5]] if quick else [[0, 2, 3, 5], [2, 4, 6], []]
     for cn in a_ctrl:
         for clip in (False, True):
             for lay in a_lay:
@@ -126,11 +126,14 @@ def enumerate_cases(tier, seed):
                                           eps="eps_dyadic", clip=clip, dt0=dt0, layout=lay, bound=bound,
                                           max_points=8 if quick else 9, weight=600 if quick else 6000))
     # ---- bfs mode
-    for lay in ([[0, 2, 3, 5]] if quick else [[0, 2, 3, 5], [1, 3, 4], [0, 1, 2, 3, 4, 5]]):
+    for lay in ([[0, 2, 3, 5]] if quick else [[0, 2, 3, 5], [1, 3, 4, 6], [0, 1, 2, 3, 4, 5, 6]]):
         for clip in (False, True):
             cases.append(dict(id=f"bfs/S_lattice/clip{int(clip)}/L{''.join(map(str, lay))}", group=f"b/{int(clip)}/{len(lay)}", mode="bfs", controller="S_lattice",
                               clip=clip, eps="eps_dyadic", layout=lay, max_states=200000,
                               weight=600 if quick else 1500))
+    # ---- E4: TLA+ model, TLC + edge-level conformance replay
+    for clip in (False, True):
+        cases.append(dict(id=f"tla/clip{int(clip)}", group=f"tla/{int(clip)}", mode="tla", clip=clip, weight=700))
     # ---- controller grid
     for cn in CONTROLLERS:
         if CONTROLLERS[cn][0] in ("integral", "pi"):
@@ -146,7 +149,7 @@ def describe(tier, seed):
              "real adaptive loop; a run is non-trivial if it contains at least one rejection or one interpolation",
         exhaustive=True,
         alphabets=dict(profile_values=VALUES, profile_breaks=BREAKS, max_pieces=2 if quick else 3,
-                       layout_points="subsets of {1/4,3/8,1/2,1/2+eps/2,1/2+2eps,3/4} + {1}", max_layout_size=2 if quick else 6,
+                       layout_points="subsets of {1/4,3/8,1/2,1/2+eps/2,1/2+2eps,3/4-eps/2,3/4} + {1}", max_layout_size=2 if quick else 7,
                        dt0=DT0S, eps=EPSS, controllers=sorted(CONTROLLERS), answer_menu=ANSWER_MENU,
                        entries=["solve_adaptive_save_at", "solve_adaptive_terminal_values", "test_util.solve_adaptive_save_every_step", "RejectionLoop.loop"]),
         bounds=dict(deviation_bound=2 if quick else 3, horizon_attempts=HORIZON),
@@ -291,6 +294,8 @@ def run_cases(cases):
             yield core.guarded(case, lambda c: _run_answers(ctx, c))
         elif mode == "bfs":
             yield core.guarded(case, lambda c: _run_bfs(ctx, c))
+        elif mode == "tla":
+            yield core.guarded(case, lambda c: _run_tla(ctx, c))
         else:
             yield core.guarded(case, lambda c: _run_control(ctx, c))
 
@@ -518,6 +523,15 @@ def _run_bfs(ctx, case):
     capped = bool(frontier)
     return core.result(case, _dedup(fails), transitions=trans, traces=trans, states=len(seen), outcome=f"states={len(seen)}",
                        nontrivial=True, sample=dict(states=len(seen), transitions=trans, frontier_left=len(frontier), cap_hit=capped))
+
+
+def _run_tla(ctx, case):
+    from mc import replay_tlc
+
+    fl, n_states, n_edges, stats = replay_tlc.replay(case["clip"], ctx)
+    fails = [core.fail(k, d) for k, d in fl]
+    return core.result(case, _dedup(fails), transitions=n_edges, traces=n_edges, states=n_states, outcome=f"tlc_states={n_states}", nontrivial=True,
+                       sample=dict(tlc=stats, model_states=n_states, edges_replayed_against_implementation=n_edges))
 
 
 def _run_control(ctx, case):
